@@ -45,6 +45,8 @@ type WalkCase struct {
 	Plan TreePlan
 	// Stop is the position at which the consumer stops (-1: never).
 	Stop int
+	// Again: the same iterator value is ranged over a second time, completely.
+	Again bool
 }
 
 func genTreeChecks(t *rapid.T, label string) *TreeChecks {
@@ -231,10 +233,29 @@ func checkWalk(c WalkCase) (res vprop.Result) {
 	if stop >= len(ref) {
 		stop = -1
 	}
-	for it := range walk.Plan(p) {
+	// one iterator value is used for everything below: an iter.Seq may be ranged over any number of times, and
+	// "walking a plan yields ... every ... object exactly once" holds for each walk, also after an earlier walk over the
+	// same value was stopped early
+	seq := walk.Plan(p)
+	for it := range seq {
 		got = append(got, it)
 		if stop >= 0 && len(got)-1 == stop {
 			break
+		}
+	}
+	if c.Again {
+		res.Label("same-iterator-walked-again")
+		n := 0
+		for it := range seq {
+			if n >= len(ref) || it.Value != ref[n].v {
+				res.Fail("C19/second-walk", "second walk over the same iterator value (after a first walk that stopped at %d): item %d is %v, reference has %d items", stop, n, it.Value != nil, len(ref))
+				return res
+			}
+			n++
+		}
+		if n != len(ref) {
+			res.Fail("C19/second-walk", "second walk over the same iterator value (after a first walk that stopped at %d) yielded %d items, reference enumeration has %d", stop, n, len(ref))
+			return res
 		}
 	}
 
@@ -280,6 +301,7 @@ func TestC19(t *testing.T) {
 			if rapid.IntRange(0, 2).Draw(t, "stopMode") > 0 {
 				c.Stop = rapid.IntRange(0, 60).Draw(t, "stop")
 			}
+			c.Again = rapid.Bool().Draw(t, "again")
 			return c
 		},
 		Check: checkWalk,
